@@ -551,11 +551,18 @@ def _branch_only_prints(ft, sw_block):
     return True
 
 
+def _peel_copy(t):
+    while t[0] in ("ref", "deref") or (t[0] == "call" and isinstance(t[1], str) and t[1].endswith("::clone") and t[2]):
+        t = t[2] if t[0] == "ref" else (t[1] if t[0] == "deref" else t[2][0])
+    return t
+
+
 def check_memo_table(facts, run, getter, fld, entries):
     """list of (ok, key, reason) for the memo table `fld` maintained by `getter`"""
     out = []
     ft = fn_terms(facts, getter)
-    reads = [c for c in ft.calls() if c.callee and c.callee.endswith("Index<I>>::index") and any(x[0] == "field" and x[2] == fld for x in walk(c.args[0]))]
+    reads = [c for c in ft.calls() if c.callee and (c.callee.endswith("Index<I>>::index") or (c.callee.endswith("::get") and len(c.args) == 2 and ("slice" in c.callee or "Vec" in c.callee)))
+             and any(x[0] == "field" and x[2] == fld for x in walk(c.args[0]))]
     writes = [c for c in ft.calls() if c.callee and c.callee.endswith("IndexMut<I>>::index_mut") and _mentions_field(c.args[0], fld)]
     if len(reads) != 1 or len(writes) != 1:
         return [(False, "shape", "expected one cached read and one write of %s in %s (found %d/%d) - unrecognised idiom, cannot decide" % (fld, getter, len(reads), len(writes)))]
@@ -581,7 +588,16 @@ def check_memo_table(facts, run, getter, fld, entries):
         out.append((False, "stored-value", "the store is not `slot = Some(value)` - unrecognised idiom"))
         return out
     value = stored[3][0]
-    # returned value on the miss path = stored value; on the hit path = the cached one
+    # returned value on the miss path = stored value (else the first call that fills a slot answers differently from every
+    # later call that finds it filled): every Ok result reachable after the store must carry the stored value itself
+    from ..query import return_sites, is_variant as _isv
+    miss_rets = []
+    for rb_, t_ in return_sites(ft):
+        if _isv(t_, "Ok") and (rb_ == wr.block or ft.cfg.can_reach(wr.block, rb_)) and ft.cfg.dominates(wr.block, rb_):
+            miss_rets.append(t_)
+    same_val = bool(miss_rets) and all(strip_site(_peel_copy(t_[3][0])) == strip_site(_peel_copy(value)) for t_ in miss_rets)
+    out.append((same_val, "miss-returns-stored", "after filling the slot the function returns %s; the slot holds %s" % (
+        [fmt(t_[3][0])[:50] for t_ in miss_rets] or "nothing found", fmt(value)[:50])))
     # key domain from every calling context of the getter
     eng = Engine(facts, precision=0)
     eng.analyze([(p, a) for p, a in entries if p in facts.fns])
